@@ -239,9 +239,12 @@ FilterOut(pr, vals, select) ==
 (* invocation indices, and returns a canonical string per data output.     *)
 (***************************************************************************)
 \* tname = the name the wrapped function knows itself by (nodes sharing one function share it)
+\* fn = "gen": a GENERATOR function (sync or async): it yields two items, the runner collects them into a list
+GenItems(nd, o, args) == LET t == nd.tname \o "." \o o \o "(" \o ArgText(args) \o ")" IN <<t \o "#0", t \o "#1">>
 BodyVal(nd, o, args) ==
   CASE nd.fn = "id"    -> IF Len(args) > 0 THEN args[1][3] ELSE nd.tname \o "." \o o
     [] nd.fn = "const" -> nd.tname \o "." \o o
+    [] nd.fn = "gen"   -> ListText(GenItems(nd, o, args))
     [] OTHER           -> nd.tname \o "." \o o \o "(" \o ArgText(args) \o ")"
 
 \* the value of output j is labelled with the ORIGINAL output label (olabels), so that renaming an
@@ -424,8 +427,12 @@ ExecNode(pr, prefix, nd, args, st, step, mode) ==
      IN [base EXCEPT !.outs = NodeOuts(nd, args), !.dec = d,
                      !.w = IF nd.cache THEN [w1 EXCEPT !.cache = CachePut(w1.cache, w1.cap, e)] ELSE w1]
   ELSE LET e == [key |-> CacheKey(nd, args), outs |-> NodeOuts(nd, args), dec |-> NoDec]
+           \* the list a generator node produces becomes a known list value (it may be mapped over downstream)
+           gl == IF nd.fn = "gen" /\ nd.ndata >= 1 THEN {BodyVal(nd, nd.olabels[1], args)} ELSE {}
+           w2 == [w1 EXCEPT !.lists = [t \in (DOMAIN w1.lists) \cup gl |->
+                                         IF t \in gl THEN GenItems(nd, nd.olabels[1], args) ELSE w1.lists[t]]]
        IN [base EXCEPT !.outs = NodeOuts(nd, args),
-                       !.w = IF nd.cache THEN [w1 EXCEPT !.cache = CachePut(w1.cache, w1.cap, e)] ELSE w1]
+                       !.w = IF nd.cache THEN [w2 EXCEPT !.cache = CachePut(w2.cache, w2.cap, e)] ELSE w2]
 
 \* acc = [st, first, err, pause]; snap = state at the start of the step.
 \* first \in {"none", "fail", "pause"}: kind of the first non-successful node in LIST order
